@@ -148,7 +148,7 @@ PROPS = {
         assumptions=["StakingWF (SDK staking, an input of the model): the iterator yields each validator once AND bonded => tokens > 0 (staking EndBlock runs before valset EndBlock and leaves Bonded only validators with consensus power >= 1) - used for each-exactly-once, stored_total_pos, build_never_panics; necessity: staking_assumption_needed, bonded_positive_needed", "RegsEvmTyped (registered accounts are EVM-typed; NOT enforced by /repo) - only for the any-account reading of 'restricted to validators with an account there', which is otherwise refuted (sent_restricted_any_account_violated; known finding C10-account-type)"],
     ),
     "C05": dict(
-        lean_modules=["PalomaModel.Props.C05"],
+        lean_modules=["PalomaModel.Props.C05", "PalomaModel.Props.SignSource"], gen=["SignBytes.lean"],
         harness_test="TestC05",
         n_quick=300, n_thorough=3000, thorough_seeds=6, timeout_quick=900,
         spec_ops=[],
@@ -159,7 +159,7 @@ PROPS = {
         assumptions=["message-id theorems are stated for fewer than 2^64 enqueue operations (the counter is a uint64)"],
     ),
     "C07": dict(
-        lean_modules=["PalomaModel.Props.C07"],
+        lean_modules=["PalomaModel.Props.C07", "PalomaModel.Props.SignSource"], gen=["SignBytes.lean"],
         harness_test="TestC07",
         n_quick=300, n_thorough=3000, thorough_seeds=6, timeout_quick=900,
         # the attestation verdict and the success effects printed by the driver are the property's own subject
